@@ -356,9 +356,10 @@ fn encode_2d(x: u64, y: u64, order: usize) -> u64 {
     }
 
     config = LUT[((config & !0xfff) | ((zorder << (-shift) as u64) & 0xfff) as u16) as usize];
-    hilbert = (hilbert << 12) | (config & 0xfff) as u64;
 
-    hilbert >> -shift
+    // Only the `12 + shift` high bits of the last group are significant.
+    // Shifting `hilbert` by a whole group would overflow for orders 31 and 32.
+    (hilbert << (12 + shift)) | ((config & 0xfff) as u64 >> -shift)
 }
 
 fn encode_3d(x: u64, y: u64, z: u64, order: usize) -> u64 {
